@@ -118,6 +118,25 @@ def ops_corruptions():
     return out
 
 
+def gen_corruptions():
+    """Generator-model conformance (TraceGenTwoLevel): a changed advance or outcome must drift."""
+    two = record.canonical(mkcfg("TwoLevel", N=7, passes=2, period=4, ram=1, st=0))
+    out = [("valid TwoLevel trace is a behaviour of the generator model", two, None)]
+
+    def mut(name, fn, expect):
+        t = copy.deepcopy(two)
+        fn(t)
+        out.append((name, t, expect))
+
+    def adv(t, nth):
+        return first(t, lambda e: is_act(0)(e) and e[5] == 0 and e[6] == 0 and e[7] == 2, nth)
+    mut("gen: a plain advance one step longer", lambda t: t["ev"][adv(t, 0)].__setitem__(4, t["ev"][adv(t, 0)][4] + 1), "GEN.drift")
+    mut("gen: disk checkpoint moved instead of copied",
+        lambda t: t["ev"][first(t, lambda e: is_act(2)(e) and e[7] == 1)].__setitem__(2, 3), "GEN.drift")
+    mut("gen: finalize outcome flipped", lambda t: t["ev"][first(t, lambda e: e[0] == 1)].__setitem__(1, 2), "GEN.drift")
+    return out
+
+
 def main():
     ctx = fw.Ctx("SELFTEST", "quick", 0)
     cases = corruptions()
@@ -126,9 +145,11 @@ def main():
     try:
         verdicts = fw.validate(ctx, traces)
         verdicts += fw.validate(ctx, [t for _, t, _ in ocases], module="TraceOps", tag="ops")
+        gcases = gen_corruptions()
+        verdicts += fw.validate(ctx, [t for _, t, _ in gcases], module="TraceGenTwoLevel", tag="gtl")
     finally:
         ctx.cleanup()
-    cases = cases + ocases
+    cases = cases + ocases + gcases
     bad = 0
     for (name, t, expect), v in zip(cases, verdicts):
         got = sorted({c for c, _, _ in v["viol"]})
